@@ -30,7 +30,7 @@ import (
 // ---------------------------------------------------------------- generated operations
 
 type contractInfo struct {
-	Kind    string // toggle | revert | loop | forward | payback | destruct
+	Kind    string // toggle | revert | loop | forward | payback | destruct | paydead
 	Runtime []byte
 	Target  keys.Address // forward target / selfdestruct beneficiary
 }
@@ -129,6 +129,15 @@ func (g *olvmGen) smallValue() *big.Int {
 }
 
 func (g *olvmGen) deployable() *contractInfo {
+	// pay-the-dead: calls a destruct contract with data (it selfdestructs) and then pays it 1
+	if g.R.Intn(9) == 0 {
+		for _, a := range g.Order {
+			if g.Contracts[a].Kind == "destruct" {
+				b, _ := hex.DecodeString(a)
+				return &contractInfo{Kind: "paydead", Runtime: rtPayDead(keys.Address(b)), Target: keys.Address(b)}
+			}
+		}
+	}
 	switch g.R.Intn(7) {
 	case 0, 1:
 		return &contractInfo{Kind: "toggle", Runtime: rtToggle()}
@@ -292,7 +301,25 @@ func (g *olvmGen) next(balanceOf func([]byte) *big.Int) *olvmOp {
 	tw := OlvmTweak{}
 	note := ""
 	data := []byte(nil)
-	switch g.R.Intn(21) {
+	switch g.R.Intn(27) {
+	case 21:
+		tw.TxType, note = 1, "payload-type-not-legacy"
+	case 22:
+		tw.AccessList, note = true, "payload-with-access-list"
+	case 23:
+		other := g.eth()
+		for other == from {
+			other = g.eth()
+		}
+		tw.EnvelopeKey, note = other, "envelope-key-of-somebody-else"
+	case 24:
+		tw.PayloadSpace, note = true, "payload-not-canonical"
+	case 25:
+		m := "0" + fmt.Sprint(n)
+		tw.Memo, note = &m, "memo-leading-zero"
+	case 26:
+		m := "+" + fmt.Sprint(n)
+		tw.Memo, note = &m, "memo-plus-sign"
 	case 18:
 		tw.SigLen, note = 64+2*g.R.Intn(2), "signature-not-65-bytes" // 64 or 66
 	case 19:
@@ -526,6 +553,9 @@ func eventAttr(evs []abci.Event, typ, key string) ([]byte, bool) {
 func vErrClass(log string) string {
 	tests := []struct{ sub, name string }{
 		{"not enabled", "notEnabled"},
+		{"payload is not in canonical encoding", "payloadEnc"},
+		{"mismatch signer public key", "signerKey"},
+		{"transaction type not supported", "txType"},
 		{"invalid signatures count", "sigCount"},
 		{"invalid chain id", "chainId"},
 		{"mismatch sender", "sender"},
@@ -588,7 +618,7 @@ type OlvmOptions struct {
 	Only      int // >= 0: run only this case
 }
 
-const olvmRule = "case = one generated block history on the fork genesis family (Frankenstein block 1 or 2, 3 Ethereum-keyed accounts of which one nearly empty, 3 native accounts; every 6th case with a finite block gas limit; cases 0/1/2 are scripted: the selfdestruct regression scenario (create / fund / trigger: beneficiary +5070, contract record 0, total unchanged), nonce re-use (S12), inner revert): mixes of OLVM transactions (plain transfers incl. to self / fresh / native-keyed addresses, creations of 6 hand-assembled contracts with and without value incl. failing init code and missing deposit gas, calls that succeed / revert / run out of gas / forward value / pay the caller back / selfdestruct, nonces above and below the state nonce and re-used, exact / one-short / absent funds, 21 ways of breaking a transaction) with native SENDs to the same accounts, contracts and future contract addresses, each offered to CheckTx first. Per transaction on the real application: native view == EVM view (balance, nonce) for every tracked account before and after; for an executed OLVM tx sender / recipient / contract-kind flows, fee pool += gasUsed*price, nonce+1, no other balance record changes, sum of all OLT records unchanged; for a refused one no key of the tree changes; per block a twin replica that never saw the refused transactions or any CheckTx has the same application hash. Correspondence: every DeliverTx / CheckTx of an OLVM tx is re-computed by the Lean model from the decoded pre-state records and the reference interpreter's outputs (go-ethereum EVM on go-ethereum's own state) and must give the same code, stage, gas used / wanted, fee pool and account records. non-trivial = at least one executed value transfer, one executed-but-reverted tx, one refused tx and one native transfer to an EVM-known account; distinct = SHA-256 of the history lines"
+const olvmRule = "case = one generated block history on the fork genesis family (Frankenstein block 1 or 2, 3 Ethereum-keyed accounts of which one nearly empty, 3 native accounts; every 6th case with a finite block gas limit; cases 0-3 are scripted: the selfdestruct regression scenario (create / fund / trigger: beneficiary +5070, contract record 0, total unchanged), nonce re-use (S12), inner revert (nothing but the sender changes), pay-the-dead (P calls A which selfdestructs, then pays A 1: A gone, exactly 1 burnt)): mixes of OLVM transactions (plain transfers incl. to self / fresh / native-keyed addresses, creations of 6 hand-assembled contracts with and without value incl. failing init code and missing deposit gas, calls that succeed / revert / run out of gas / forward value / pay the caller back / selfdestruct, nonces above and below the state nonce and re-used, exact / one-short / absent funds, 27 ways of breaking a transaction) with native SENDs to the same accounts, contracts and future contract addresses, each offered to CheckTx first. Per transaction on the real application: native view == EVM view (balance, nonce) for every tracked account before and after; for an executed OLVM tx sender / recipient / contract-kind flows, fee pool += gasUsed*price, nonce+1, no other balance record changes, sum of all OLT records unchanged; for a refused one no key of the tree changes; per block a twin replica that never saw the refused transactions or any CheckTx has the same application hash. Correspondence: every DeliverTx / CheckTx of an OLVM tx is re-computed by the Lean model from the decoded pre-state records and the reference interpreter's outputs (go-ethereum EVM on go-ethereum's own state) and must give the same code, stage, gas used / wanted, fee pool and account records. non-trivial = at least one executed value transfer, one executed-but-reverted tx, one refused tx and one native transfer to an EVM-known account; distinct = SHA-256 of the history lines"
 
 type olvmCase struct {
 	opt    OlvmOptions
@@ -702,6 +732,8 @@ func (oc *olvmCase) run(r *rng.R) (bool, error) {
 		script = scriptNonceReuse
 	case 2:
 		script = scriptInnerRevert
+	case 3:
+		script = scriptPayTheDead
 	}
 
 	// tracked addresses: both views are compared for each of them around every transaction
@@ -905,7 +937,8 @@ func (oc *olvmCase) run(r *rng.R) (bool, error) {
 					toks = append(toks, post.acctToken(a))
 				}
 				oc.ops = append(oc.ops, line)
-				oc.impl = append(oc.impl, fmt.Sprintf("code %d stage %s used %d wanted %d pool %s live %d accts %s", rd.Code, stage, rd.GasUsed, rd.GasWanted, post.pool(), A.App.VerifEVMLiveObjects(), strings.Join(toks, ",")))
+				burntImpl := new(big.Int).Sub(pre.totalOLT(), post.totalOLT()) // what left the ledger, from the records
+				oc.impl = append(oc.impl, fmt.Sprintf("code %d stage %s used %d wanted %d pool %s burnt %s live %d accts %s", rd.Code, stage, rd.GasUsed, rd.GasWanted, post.pool(), burntImpl, A.App.VerifEVMLiveObjects(), strings.Join(toks, ",")))
 				oc.labels = append(oc.labels, fmt.Sprintf("case %d block %d tx %d (%s) shadow-err=%q", oc.c, h, i, o.Note, vm.Err))
 			} else {
 				res.Counters["borderline_gas_pool_not_compared"]++
@@ -984,6 +1017,7 @@ func (oc *olvmCase) modelLine(verb string, w *OlvmWorld, g *olvmGen, o *olvmOp, 
 		size = int(ethtypes.NewTx(&ethtypes.LegacyTx{Nonce: o.Nonce, To: ethTo, Value: val, Gas: uint64(o.Gas), GasPrice: o.Price, Data: o.Data}).Size())
 	}
 	memo := fmt.Sprint(o.Nonce)
+	memoCanon := o.Tw.Memo == nil || *o.Tw.Memo == strconv.FormatUint(o.Nonce, 10)
 	if o.Tw.Memo != nil {
 		memo = "x"
 		if n, err := strconv.ParseUint(*o.Tw.Memo, 10, 0); err == nil {
@@ -1005,6 +1039,12 @@ func (oc *olvmCase) modelLine(verb string, w *OlvmWorld, g *olvmGen, o *olvmOp, 
 		fromAddr = *o.Tw.From
 	}
 	senderOk := bytes.Equal(signer.Addr, fromAddr) && (o.Tw.SignChainID == nil || o.Tw.SignChainID.Cmp(w.EvmID) == 0)
+	envKey := signer
+	if o.Tw.EnvelopeKey != nil {
+		envKey = o.Tw.EnvelopeKey
+	}
+	signerKeyOk := bytes.Equal(envKey.Addr, fromAddr)
+	typeOk := o.Tw.TxType == 0 && !o.Tw.AccessList
 	feeCurOk := o.Tw.FeeCurrency == "" || o.Tw.FeeCurrency == "OLT"
 	amtCurOk := o.Tw.Currency == "" || o.Tw.Currency == "OLT"
 	stNonce := pre.keeper(fromAddr).Nonce
@@ -1071,10 +1111,11 @@ func (oc *olvmCase) modelLine(verb string, w *OlvmWorld, g *olvmGen, o *olvmOp, 
 		toks = append(toks, pre.acctToken(a))
 	}
 	addrOk := o.To == nil || len(*o.To) == 20
-	line := fmt.Sprintf("%s %s 1000000000 %d %s %s %s %d %s %d %s %d %d %d %s %d %s %s %s %s %s %s %s %s %s %s",
+	line := fmt.Sprintf("%s %s 1000000000 %d %s %s %s %d %s %d %s %d %d %d %s %d %s %s %s %s %s %s %s %s %s %s %s %s %s %s",
 		verb, olvmB01(enabled), gasPool, newAddr,
 		hexAddr(fromAddr), toTok, o.Nonce, val, o.Gas, o.Price, nz, z, size, memo,
 		sigs, olvmB01(sigOk), olvmB01(chainOk), olvmB01(senderOk), olvmB01(feeCurOk), olvmB01(amtCurOk), olvmB01(addrOk), olvmB01(o.Tw.NilChainID),
+		olvmB01(!o.Tw.PayloadSpace), olvmB01(signerKeyOk), olvmB01(typeOk), olvmB01(memoCanon),
 		vm.tokens(), pre.pool(), strings.Join(toks, ","))
 	return line, vm
 }
@@ -1122,6 +1163,7 @@ func (oc *olvmCase) monitorTx(w *OlvmWorld, g *olvmGen, o *olvmOp, rd abci.Respo
 	addExp(fromAddr, new(big.Int).Neg(fee))
 	addExp(fromAddr, new(big.Int).Neg(value))
 	selfdestructed := []byte(nil)
+	burn := new(big.Int) // what the transaction is expected to take out of the ledger
 	var rcpt []byte
 	if o.To != nil {
 		rcpt = *o.To
@@ -1154,6 +1196,27 @@ func (oc *olvmCase) monitorTx(w *OlvmWorld, g *olvmGen, o *olvmOp, rd abci.Respo
 		addExp(ci.Target, new(big.Int).Add(old, value))
 		selfdestructed = rcpt
 		res.Counters["selfdestructs_checked"]++
+	case ci.Kind == "paydead":
+		// P calls A with data (A pays its beneficiary everything and selfdestructs), then pays A 1:
+		// A is deleted with that 1, which is burnt. If A is no contract (any more) it just gets the 1.
+		addExp(rcpt, value)
+		one := big.NewInt(1)
+		funded := new(big.Int).Add(pre.balance(rcpt), value).Sign() > 0
+		ta := confirmed[hexAddr(ci.Target)]
+		if ta != nil && ta.Kind == "destruct" && pre.keeper(ci.Target).Code {
+			old := pre.balance(ci.Target)
+			addExp(ci.Target, new(big.Int).Neg(old))
+			addExp(ta.Target, old)
+			selfdestructed = ci.Target
+			if funded {
+				addExp(rcpt, new(big.Int).Neg(one))
+				burn = one
+			}
+			res.Counters["pay_the_dead_checked"]++
+		} else if funded {
+			addExp(rcpt, new(big.Int).Neg(one))
+			addExp(ci.Target, one)
+		}
 	default:
 		addExp(rcpt, value)
 	}
@@ -1202,8 +1265,11 @@ func (oc *olvmCase) monitorTx(w *OlvmWorld, g *olvmGen, o *olvmOp, rd abci.Respo
 		}
 	}
 	// 4. nothing created, nothing lost
-	if t0, t1 := pre.totalOLT(), post.totalOLT(); t0.Cmp(t1) != 0 && !sd {
-		oc.hit("olvm-tx-changed-the-total", fmt.Sprintf("%s: sum of all OLT balance and fee records %s -> %s (%s)", where, t0, t1, new(big.Int).Sub(t1, t0)))
+	if t0, t1 := pre.totalOLT(), post.totalOLT(); new(big.Int).Sub(t0, burn).Cmp(t1) != 0 && !sd {
+		oc.hit("olvm-tx-changed-the-total", fmt.Sprintf("%s: sum of all OLT balance and fee records %s -> %s (%s), expected to shrink by %s (paid to a contract after its selfdestruct)", where, t0, t1, new(big.Int).Sub(t1, t0), burn))
+	}
+	if selfdestructed != nil && stage == "success" && (post.keeper(selfdestructed).Present || post.balance(selfdestructed).Sign() != 0) && !sd {
+		oc.hit("selfdestructed-contract-not-deleted", fmt.Sprintf("%s: contract %s after its SELFDESTRUCT: keeper record present %v, balance record %s", where, hexAddr(selfdestructed), post.keeper(selfdestructed).Present, post.balance(selfdestructed)))
 	}
 	// 5. nonce + 1
 	n0, n1 := pre.keeper(fromAddr).Nonce, post.keeper(fromAddr).Nonce
@@ -1307,6 +1373,47 @@ func scriptInnerRevert(g *olvmGen, h int64) []*olvmOp {
 		t := g.N.mk("SEND", "to-future-contract", &transfer.Send{From: a.Addr, To: fut, Amount: OLT(2)}, a)
 		return []*olvmOp{{Native: &t, Note: "to-future-contract", Bytes: t.Bytes},
 			g.mkOlvm(e, nil, n, big.NewInt(3), rtRevert(), 100000, defaultPrice, OlvmTweak{}, "script:create-at-prefunded-address-init-reverts")}
+	}
+	return nil
+}
+
+// scriptPayTheDead: A is a destruct contract holding 5000; P calls A with data (A pays its
+// beneficiary and selfdestructs) and then pays A 1 out of the 10 it was sent: A is deleted with
+// that 1 (keeper and balance record gone), the beneficiary has +5000, P +9, the total shrinks by 1.
+func scriptPayTheDead(g *olvmGen, h int64) []*olvmOp {
+	e := g.W.Eth[0]
+	n := g.Nonce[hexAddr(e.Addr)]
+	switch h {
+	case 3:
+		ca := &contractInfo{Kind: "destruct", Runtime: rtDestruct(g.Benef), Target: g.Benef}
+		aa := ethcrypto.CreateAddress(e.Eth(), n).Bytes()
+		cp := &contractInfo{Kind: "paydead", Runtime: rtPayDead(keys.Address(aa)), Target: keys.Address(aa)}
+		pa := ethcrypto.CreateAddress(e.Eth(), n+1).Bytes()
+		for _, x := range []struct {
+			a []byte
+			c *contractInfo
+		}{{aa, ca}, {pa, cp}} {
+			if _, ok := g.Contracts[hexAddr(x.a)]; !ok {
+				g.Contracts[hexAddr(x.a)] = x.c
+				g.Order = append(g.Order, hexAddr(x.a))
+			}
+		}
+		o1 := g.mkOlvm(e, nil, n, big.NewInt(0), initCode(ca.Runtime), 200000, defaultPrice, OlvmTweak{}, "script:create-destruct")
+		o1.Deploy = ca
+		o2 := g.mkOlvm(e, nil, n+1, big.NewInt(0), initCode(cp.Runtime), 250000, defaultPrice, OlvmTweak{}, "script:create-paydead")
+		o2.Deploy = cp
+		return []*olvmOp{o1, o2}
+	case 4, 5:
+		if len(g.Order) < 2 {
+			return nil
+		}
+		ab, _ := hex.DecodeString(g.Order[0])
+		pb, _ := hex.DecodeString(g.Order[1])
+		a, p := keys.Address(ab), keys.Address(pb)
+		if h == 4 {
+			return []*olvmOp{g.mkOlvm(e, &a, n, big.NewInt(5000), nil, 100000, defaultPrice, OlvmTweak{}, "script:fund-destruct")}
+		}
+		return []*olvmOp{g.mkOlvm(e, &p, n, big.NewInt(10), nil, 250000, defaultPrice, OlvmTweak{}, "script:pay-the-dead")}
 	}
 	return nil
 }
